@@ -112,7 +112,7 @@ class TriangularLinearOperator(LinearOperator, _TriangularLinearOperatorBase):
     def _mul_constant(
         self: Float[LinearOperator, "*batch M N"], other: Union[float, torch.Tensor]
     ) -> Float[LinearOperator, "*batch M N"]:
-        return self.__class__(self._tensor * other.unsqueeze(-1), upper=self.upper)
+        return self.__class__(self._tensor._mul_constant(other), upper=self.upper)
 
     def _root_decomposition(
         self: Float[LinearOperator, "... N N"]
